@@ -393,6 +393,10 @@ def run(ctx):
                  Alignment.from_horizontal_and_vertical_align])
     P("dfxp._convert_layout_to_attributes", layout_attributes, functions=[dfxp_base._convert_layout_to_attributes],
       contracts={"pycaption.geometry:Size.__str__": _size_str})
+    # nodes with different layouts become separate cues: every text node's text lies in a cue group that carries the
+    # node's own layout (any node list; loop invariant shared with C03 / C11)
+    import props.C03_lines as LN
+    LN.prove_cue_lines(ctx)
     ctx.bounded("dfxp_roundtrip", "caption sets with percentage layouts at language / caption / node level (mixed), "
                 "padding arities 1-4, all alignment pairs incl. absent parts, x relativize x fit_to_screen: write DFXP, "
                 "read it back, every text node has the same effective layout (defaults start / after)",
